@@ -155,17 +155,22 @@ theorem stepApi_writes {st st' : St} {c : Api} (hr : respectful st (.api c) = tr
   | psAdd g p hh =>
     simp only [stepApi] at h
     opt_cases h
-    rename_i a hg pw hp m2 hm2
-    simp only [respectful, hg, Bool.and_eq_true] at hr
-    have hw : SetW (fun x => wset st (.api (.psAdd g p hh)) x = true) st.mem st.mem a := by
-      refine setW_of_owned ?_ hr.1
-      intro x hx
-      rcases hx with hx | hx <;> simp [wset, hg, hx]
-    split at hm2
-    · refine (pres_setAdd (pres_freezeCaller _ _ ?_) (setW_freezeCaller _ hw) hm2).1
+    · rename_i a hg _ arr off len cap hp m2 hm2
+      simp only [respectful, hg, Bool.and_eq_true] at hr
+      have hw : SetW (fun x => wset st (.api (.psAdd g p hh)) x = true) st.mem st.mem a := by
+        refine setW_of_owned ?_ hr.1
+        intro x hx
+        rcases hx with hx | hx <;> simp [wset, hg, hx]
+      refine (pres_setAdd (pres_freezeCaller _ _ ?_) (setW_freezeCaller _ hw) hm2).1
       intro ho
       simp [wset, hp, ho]
-    · exact (pres_setAdd (Ext.refl _ _) hw hm2).1
+    · rename_i a hg _ hp m2 hm2
+      simp only [respectful, hg, Bool.and_eq_true] at hr
+      have hw : SetW (fun x => wset st (.api (.psAdd g p hh)) x = true) st.mem st.mem a := by
+        refine setW_of_owned ?_ hr.1
+        intro x hx
+        rcases hx with hx | hx <;> simp [wset, hg, hx]
+      exact (pres_setAdd (Ext.refl _ _) hw hm2).1
   | walkNext w =>
     simp only [stepApi] at h
     opt_cases h
